@@ -383,6 +383,26 @@ func runBatch(bh *builtHarness, seed, from, count uint64, budget time.Duration, 
 			wd = remaining*2 + 5*time.Minute
 		}
 		stderr, exit, err := runBinary(bh, env, wd)
+		if err != nil && exit == -2 {
+			// the batch did not end: if the run it was in does not end in isolation either, that run is a violation
+			// (livelock / deadlock of the code under test); anything else stays an infrastructure problem
+			if cb, cerr := os.ReadFile(cur); cerr == nil {
+				if hung, perr := strconv.ParseUint(strings.TrimSpace(strings.SplitN(string(cb), "\n", 2)[0]), 10, 64); perr == nil {
+					if v := attributeHang(bh, seed, hung, params); v != nil {
+						res.crashes = append(res.crashes, *v)
+						merged.Runs += hung - from + 1
+						merged.Counters["runs_that_do_not_terminate"]++
+						count -= hung - from + 1
+						from = hung + 1
+						attempt = -1
+						if len(res.crashes) >= 3 {
+							return res
+						}
+						continue
+					}
+				}
+			}
+		}
 		if err != nil {
 			res.err = fmt.Errorf("%v\n%s", err, tail(stderr, 4000))
 			return res
@@ -522,6 +542,35 @@ func classifyCrash(stderr string, exit int) (class, fp, detail string) {
 		}
 	}
 	return fmt.Sprintf("process-exit-%d", exit), "unknown", tail(stderr, 3000)
+}
+
+// attributeHang re-executes one run in isolation; if it does not end within three minutes there either (runs take
+// milliseconds to seconds), it is reported as a violation with the choices it had drawn. nil = it ended (not a hang of that run).
+func attributeHang(bh *builtHarness, seed, run uint64, params map[string]string) *simcore.Violation {
+	rec := filepath.Join(scratch, fmt.Sprintf("%s-hang-%d.choices", bh.h.Name, run))
+	out := filepath.Join(scratch, fmt.Sprintf("%s-hang-%d.json", bh.h.Name, run))
+	pj, _ := json.Marshal(params)
+	env := map[string]string{"VERIF_OUT": out, "VERIF_SEED": fmt.Sprint(seed), "VERIF_FROM": fmt.Sprint(run), "VERIF_COUNT": "1",
+		"VERIF_RECORD": rec, "VERIF_PARAMS": string(pj), "VERIF_NOSHRINK": "1", "VERIF_REPLAY_DIR": filepath.Join(verifDir, "replays", bh.h.Property)}
+	stderr, exit, err := runBinary(bh, env, 3*time.Minute)
+	if err == nil || exit != -2 {
+		if s, e := readSummary(out); e == nil && len(s.Violations) > 0 {
+			v := s.Violations[0]
+			return &v
+		}
+		return nil
+	}
+	class, fp := "run-does-not-terminate", bh.h.Name
+	detail := fmt.Sprintf("run %d of seed %d does not end: the batch exceeded its watchdog in it and its isolated re-execution was still busy after 3 minutes (runs of this harness take milliseconds to seconds): a goroutine of the code under test spins or waits forever", run, seed)
+	dir := filepath.Join(verifDir, "replays", bh.h.Property)
+	os.MkdirAll(dir, 0o755)
+	path := filepath.Join(dir, fmt.Sprintf("%s-%s-seed%d-run%d-hang.json", bh.h.Property, bh.h.Name, seed, run))
+	choices := readChoices(rec)
+	rf := simcore.ReplayFile{Property: bh.h.Property, Harness: bh.h.Name, Seed: seed, Run: run, Params: params, Class: class, Fingerprint: fp,
+		Detail: detail, Choices: choices, OrigChoices: len(choices), Stderr: tail(stderr, 8000), TraceHash: "run-does-not-terminate"}
+	b, _ := json.MarshalIndent(&rf, "", " ")
+	os.WriteFile(path, b, 0o644)
+	return &simcore.Violation{Property: bh.h.Property, Class: class, Fingerprint: fp, Detail: detail, Seed: seed, Run: run, Replay: path, Choices: len(choices), Shrunk: len(choices)}
 }
 
 func attributeCrash(bh *builtHarness, seed, run uint64, params map[string]string, batchStderr string, batchExit int) (*simcore.Violation, error) {
